@@ -32,14 +32,16 @@ type move struct {
 	Path  []int // path to the parent list: indices into Nodes/Kids ([] = top level of the file)
 	I, J  int   // run [I, J] inclusive
 	Kind  int   // 0 macro defined before use, 1 macro defined after use, 2 include
+	Hoist bool  // the parent does not admit PASTE: the PASTE is written after the parent (one level up), which is where
+	// the language attaches it anyway; the pasted directives still land in the parent's (implicit, still open) context
 }
 
 // listMoves enumerates every contiguous run of siblings (at every level) x move kind. JSIGHT and MACRO nodes and
 // runs containing them are not moved; INCLUDE pieces may not contain JSIGHT.
 func listMoves(f *dt.File) []move {
 	var out []move
-	var rec func(nn []*dt.Node, path []int, parentKind string)
-	rec = func(nn []*dt.Node, path []int, parentKind string) {
+	var rec func(nn []*dt.Node, path []int, parentKind, grandKind string)
+	rec = func(nn []*dt.Node, path []int, parentKind, grandKind string) {
 		for i := 0; i < len(nn); i++ {
 			for j := i; j < len(nn); j++ {
 				ok := true
@@ -59,18 +61,28 @@ func listMoves(f *dt.File) []move {
 					}
 				}
 				if macroOK {
-					out = append(out, move{append([]int{}, path...), i, j, 0}, move{append([]int{}, path...), i, j, 1})
+					out = append(out, move{Path: append([]int{}, path...), I: i, J: j, Kind: 0}, move{Path: append([]int{}, path...), I: i, J: j, Kind: 1})
+				} else if len(path) > 0 && j == len(nn)-1 && !ref.Admits(parentKind, "PASTE") && ref.Admits(grandKind, "PASTE") {
+					hoistOK := true
+					for _, n := range nn[i : j+1] {
+						if !ref.Admits("MACRO", n.Kind()) {
+							hoistOK = false
+						}
+					}
+					if hoistOK {
+						out = append(out, move{Path: append([]int{}, path...), I: i, J: j, Kind: 1, Hoist: true})
+					}
 				}
-				out = append(out, move{append([]int{}, path...), i, j, 2})
+				out = append(out, move{Path: append([]int{}, path...), I: i, J: j, Kind: 2})
 			}
 		}
 		for i, n := range nn {
 			if n.Inc == nil && n.Kw != "MACRO" {
-				rec(n.Kids, append(append([]int{}, path...), i), n.Kind())
+				rec(n.Kids, append(append([]int{}, path...), i), n.Kind(), parentKind)
 			}
 		}
 	}
-	rec(f.Nodes, nil, "")
+	rec(f.Nodes, nil, "", "")
 	return out
 }
 
@@ -91,8 +103,21 @@ func applyMove(f *dt.File, m move, seq int) *dt.File {
 		mac := dt.N("MACRO", name)
 		mac.Explicit = true
 		mac.Kids = run
-		rest := append([]*dt.Node{}, (*list)[m.J+1:]...)
-		*list = append(append((*list)[:m.I:m.I], repl), rest...)
+		if m.Hoist {
+			// remove the run from the parent, write the PASTE right after the parent in the grandparent's list
+			*list = (*list)[:m.I:m.I]
+			gl := &f.Nodes
+			for _, i := range m.Path[:len(m.Path)-1] {
+				gl = &(*gl)[i].Kids
+			}
+			pi := m.Path[len(m.Path)-1]
+			(*gl)[pi].NoExplicit = true
+			after := append([]*dt.Node{}, (*gl)[pi+1:]...)
+			*gl = append(append((*gl)[:pi+1:pi+1], repl), after...)
+		} else {
+			rest := append([]*dt.Node{}, (*list)[m.J+1:]...)
+			*list = append(append((*list)[:m.I:m.I], repl), rest...)
+		}
 		if m.Kind == 0 {
 			// definition right after JSIGHT
 			f.Nodes = append(f.Nodes[:1:1], append([]*dt.Node{mac}, f.Nodes[1:]...)...)
